@@ -161,6 +161,16 @@ class Check:
         if os.environ.get('VERIF_VERBOSE'):
             sys.stderr.write('[%6.1fs] %s\n' % (time.time() - self.t0, msg))
 
+    def th(self, quick_value, thorough_value):
+        """Size of a stage: the quick value, or -- in the thorough tier -- the
+        thorough value capped at THOROUGH_FACTOR times the quick one (the
+        uncapped sizes were written before the stages multiplied; VERIF_THOROUGH_FACTOR
+        lifts the cap for a longer run)."""
+        if self.quick:
+            return quick_value
+        f = int(os.environ.get('VERIF_THOROUGH_FACTOR', '5'))
+        return min(thorough_value, max(quick_value * f, quick_value + 1))
+
     @property
     def quick(self):
         return self.tier == 'quick'
